@@ -83,6 +83,71 @@ def build_harness(race=False, pkg="./drv", out="drv.test"):
 # executing scenarios
 
 
+STALL = "stalled: no progress and no CPU use, goroutines blocked inside the library"
+STALL_S = float(os.environ.get("VERIF_STALL_S", "45"))
+
+
+def cpu_ticks(pid):
+    try:
+        f = open("/proc/%d/stat" % pid).read().rsplit(")", 1)[1].split()
+        return int(f[11]) + int(f[12])
+    except (OSError, IndexError, ValueError):
+        return 0
+
+
+def stall_digest(out):
+    """the goroutines of the dump that are blocked inside the library (first frames)"""
+    keep = []
+    for g in re.split(r"\n\n(?=goroutine \d+)", out):
+        if "github.com/jhump/grpctunnel." in g and re.search(r"\[(sync\.|semacquire|chan |select|sync\.Mutex)", g.split("\n", 1)[0]):
+            keep.append("\n".join(g.split("\n")[:9]))
+    return ("\n\n".join(keep))[-6000:]
+
+
+def run_child(cmd, env, prog, timeout, outfile):
+    """run one harness child; kill it with SIGQUIT (goroutine dump) when it has stalled: the progress file
+    has not changed and the process has used (almost) no CPU for STALL_S seconds - a deadlock that the Go
+    runtime cannot see (goroutines blocked on mutexes).  Returns (output, rc, stalled)."""
+    import signal
+    with open(outfile, "w") as fo:
+        p = subprocess.Popen(cmd, env=env, stdout=fo, stderr=subprocess.STDOUT)
+        t0 = time.time()
+        last_prog, last_cpu, last_change = None, 0, time.time()
+        stalled = False
+        while True:
+            try:
+                p.wait(timeout=1.0)
+                break
+            except subprocess.TimeoutExpired:
+                pass
+            now = time.time()
+            try:
+                cur = open(prog).read()
+            except OSError:
+                cur = None
+            cpu = cpu_ticks(p.pid)
+            if cur != last_prog or cpu - last_cpu > 20:   # > 0.2 s of CPU since the last mark
+                last_prog, last_cpu, last_change = cur, cpu, now
+            if now - last_change > STALL_S and cur is not None:
+                stalled = True
+                p.send_signal(signal.SIGQUIT)
+                try:
+                    p.wait(timeout=20)
+                except subprocess.TimeoutExpired:
+                    p.kill()
+                    p.wait()
+                break
+            if now - t0 > timeout:
+                p.kill()
+                p.wait()
+                return open(outfile, errors="replace").read(), -9, False
+    out = open(outfile, errors="replace").read()
+    if stalled and "github.com/jhump/grpctunnel." not in stall_digest(out):
+        # nothing of the library is blocked: not a verdict about the library
+        return out, -9, False
+    return out, (p.returncode if not stalled else -9), stalled
+
+
 def run_shard(binary, scenarios, d, k, timeout):
     """Run scenarios in one child process; restart after a crash.
     Returns (trace file, crashes[list of dict])."""
@@ -99,13 +164,8 @@ def run_shard(binary, scenarios, d, k, timeout):
         env = dict(os.environ, VERIF_SCENARIOS=scn, VERIF_TRACES=trc, VERIF_PROGRESS=prog, VERIF_SKIP=str(skip),
                    GOTRACEBACK="all", GORACE="halt_on_error=1")
         left = max(5, t_end - time.time())
-        try:
-            r = subprocess.run([binary, "-test.run", "TestScenarios", "-test.timeout", "0"], env=env,
-                               stdout=subprocess.PIPE, stderr=subprocess.STDOUT, text=True, timeout=left)
-            out, rc = r.stdout, r.returncode
-        except subprocess.TimeoutExpired as e:
-            out = (e.stdout or b"").decode("utf8", "replace") if isinstance(e.stdout, bytes) else (e.stdout or "")
-            rc = -9
+        out, rc, stalled = run_child([binary, "-test.run", "TestScenarios", "-test.timeout", "0"], env, prog, left,
+                                     os.path.join(d, "out%d.txt" % k))
         try:
             p = open(prog).read().split()
         except OSError:
@@ -119,10 +179,13 @@ def run_shard(binary, scenarios, d, k, timeout):
         m = re.search(r"^(panic: .*|fatal error: .*|WARNING: DATA RACE)$", out, re.M)
         if m:
             banner = m.group(1)
+        if stalled:
+            banner = STALL
         crashes.append({"scn": idx, "name": scenarios[idx].get("name", ""), "rc": rc, "banner": banner,
-                        "timeout": rc == -9, "output": out[-6000:], "scenario": scenarios[idx]})
+                        "timeout": rc == -9 and not stalled, "stalled": stalled, "output": out[-6000:] if not stalled else stall_digest(out),
+                        "scenario": scenarios[idx]})
         skip = idx + 1
-        if rc == -9:
+        if rc == -9 and not stalled:
             break
     return trc, crashes
 
